@@ -29,8 +29,9 @@ RULE = ("expressions from the C10 generator (70% well-scoped, 30% wild: multi-wo
         "name, or a fraction, or a sum that simplifies, and the canonical form differs from the input.")
 ASSUMPTIONS = [
     "hash seeds / construction order is a Python-runtime clause (R): decided by running fresh interpreters under several PYTHONHASHSEEDs, not by a theorem (the model represents sets as sorted lists)",
-    "canon_idem is proved for the model of the FIXED code (total structural sort key, flattening after canonicalising factors, trivial fractions re-checked after division); clauses still open are listed in Props/C11.lean under `-- OPEN:`",
-    "the Lean theorems are about the hand-written model Y0.Model.Canon/Dsl; the tie to the Python is this run's correspondence check (sampling)",
+    "canon_idem is proved for WellScoped expressions (the quantifier of C10) under the orderings canonicalize builds (re-sorted by name); OPEN: canon_idem_all for expressions outside WellScoped (several worlds in one leaf, repeated names) - there idempotence rests on correspondence + the direct oracle (30% wild expressions, canonicalised twice on the real code every run)",
+    "canon_perm and key_total hold for ALL expressions and orderings; canon_perm is stated one-directionally (a canonical form of e is the canonical form of every presentation e' of e); when canonicalize raises on e nothing is claimed",
+    "the Lean theorems are about the hand-written model Y0.Model.Canon/Dsl of the code after the fix commits; the tie to the Python is this run's correspondence check (sampling)",
     "cases where canonicalize raises on both presentations (uncovered name, Q-factor, zero denominator) are outside the property",
 ]
 LEANCHECK_MODULES = ["Y0.Model.Dsl", "Y0.Model.Canon", "Y0.Props.C11"]
@@ -286,11 +287,15 @@ def finding_key(case, res):
 
 MANIFEST = {
     "text": ("Proof (Lean 4) about the executable model of canonicalize_expr.py + dsl.py after the fix commits: key_total - the "
-             "sort key `_get_key` is a strict total order that separates any two different expressions; canon_perm - expressions "
-             "that differ by factor order, product nesting or children/parents order have identical canonical forms; "
-             "canon_idem clauses as listed in the evidence. Hash-seed / construction-order independence is a runtime clause "
-             "decided on every run by canonicalising batches in fresh interpreters under several PYTHONHASHSEEDs."),
+             "sort key `_get_key` is a strict total order that separates any two different expressions (all expressions); "
+             "canon_perm - expressions that differ by factor order, product nesting or children/parents order at any depth "
+             "have identical canonical forms under every ordering (all expressions); canon_idem - canonicalising a canonical "
+             "form returns it unchanged, via a syntactic characterisation of canonical forms (IsCanon) that the canonicaliser "
+             "produces and fixes, for well-scoped expressions under the orderings canonicalize builds (OPEN: expressions with "
+             "several worlds / repeated names in one leaf, covered by correspondence + oracle only). Hash-seed / construction-"
+             "order independence is a runtime clause decided on every run by canonicalising batches in fresh interpreters "
+             "under several PYTHONHASHSEEDs."),
     "note": ("Trusted: Lean kernel; the hand-written model tied to the code by differential sampling; Python's sorted() is "
              "modelled as stable insertion sort. Hash seeds: sampling (3 seeds quick, 16 thorough)."),
-    "technique": "Lean 4 theorems (total order on keys, sort of a permutation, structural induction on the canonicaliser) + differential correspondence + direct oracle on the real code incl. fresh interpreters per hash seed",
+    "technique": "Lean 4 theorems (total order on keys, uniqueness of sorted permutations, mutual induction on the canonicaliser, syntactic normal-form invariant) + differential correspondence + direct oracle on the real code incl. fresh interpreters per hash seed",
 }
